@@ -53,6 +53,21 @@ var corpusDocs = []string{
 	`{alpha{...F} alpha{...F i}} fragment F on Alpha {name id}`,
 	`{alpha{...F ...G} alpha{...G}} fragment F on Alpha {...G} fragment G on Alpha {name oa{name}}`,
 	`{named{friend(n:1){...N}} named{friend(n:1){...N name}}} fragment N on Named {name friend(n:2){name}}`,
+	// one named fragment spread under two parent types: possible first, impossible later (and the other way round)
+	`{alpha{...FA} ab{... on Beta{...FA}}} fragment FA on Alpha {name}`,
+	`{ab{... on Beta{...FA}} alpha{...FA}} fragment FA on Alpha {name}`,
+	`{alpha{...FA} named{... on Beta{...FA}}} fragment FA on Alpha {name}`,
+	`query A{alpha{...FA}} query B{ab{... on Beta{...FA}}} fragment FA on Alpha {name}`,
+	`{ab{...FN} ab{... on Beta{...FA}} alpha{...FA}} fragment FA on Alpha {name} fragment FN on Named {name ...FA}`,
+	`{alpha{...FA ...FA} ab{...FA ... on Beta{name ...FA}}} fragment FA on Alpha {name}`,
+	// a single object / list literal standing for a one-element list of a custom scalar, with variables inside
+	`query($v:Boolean){cmp(anys:{a:$v}, b:true)}`,
+	`query($v:Boolean){cmp(anysn:{a:[$v, {b:$v}]}, b:true)}`,
+	`query($v:Int){cmp(anys:[{a:$v}], b:true)}`,
+	`query($v:Int){cmp(oos:{a:$v}, b:true)}`,
+	`query($v:Int){cmp(opt:{ys:{a:$v}}, b:true)}`,
+	`query($v:Int){cmp(opt:{ys:[{a:$v}], y:{b:[$v]}}, b:true)}`,
+	`query($v:Int){cmp(anys:{a:$undefined}, b:true)}`,
 	// nested list types: item-to-list coercion at the top only
 	`{lists(g1:[[1],[2,null],null] g2:[[1],[]] g3:[[1],null] g4:[[1]] g5:[[1]] g6:[[[1]]] g7:[[[1,null]]] g8:[[1]])}`,
 	`{lists(g1:1 g2:2 g3:3 g4:4 g5:5 g6:6 g7:7 g8:8)}`,
@@ -132,7 +147,7 @@ func generate(h *hx.H) {
 		src := src
 		emit(h, func(*rng.R) docCase { return docCase{W: sw, Src: src, Intent: "any", Tag: "exhaustive"} })
 	}
-	nValid, perMutator, nHostile := 1300, 90, 800
+	nValid, perMutator, nHostile := 1500, 90, 950
 	if h.Thorough() {
 		nValid, perMutator, nHostile = 40000, 1500, 30000
 	}
